@@ -87,13 +87,13 @@ struct Fault {
     bool exact = false;             // delivered sequence must equal the first intact_objects objects when no error is expected
 };
 
-struct Script { bool header; int reads; /* -1 = until end/exception */ bool explicit_close; };
+struct Script { bool header; int reads; /* -1 = until end/exception */ bool explicit_close; bool idle = false; /* the consumer is slow: before close()/destruction it lets the pipeline run until every thread is blocked (queues full) */ };
 
 struct Cfg {
     std::string fmt; int pool; std::string qsize; Script s; Fault f;
     std::string name() const {
         std::ostringstream o;
-        o << fmt << ",pool=" << pool << ",q=" << qsize << (s.header ? ",header" : "") << ",reads=" << (s.reads < 0 ? std::string("all") : std::to_string(s.reads)) << (s.explicit_close ? ",close" : ",dtor") << ",fault=" << f.kind << "@" << f.pos;
+        o << fmt << ",pool=" << pool << ",q=" << qsize << (s.header ? ",header" : "") << ",reads=" << (s.reads < 0 ? std::string("all") : std::to_string(s.reads)) << (s.idle ? ",idle" : "") << (s.explicit_close ? ",close" : ",dtor") << ",fault=" << f.kind << "@" << f.pos;
         return o.str();
     }
 };
@@ -176,6 +176,7 @@ void body(const Cfg& c) {
                 }
                 if (calls.size() > 200) { vsched::fail("reader/read-loop-does-not-end", "more than 200 consumer calls"); break; }
             }
+            if (c.s.idle) vsched::quiesce();
             if (c.s.explicit_close) {
                 try { reader->close(); calls.push_back("close"); }
                 catch (const std::exception&) { calls.push_back("close!"); threw = true; }
@@ -241,6 +242,11 @@ std::string slurp(const std::string& path) {
 int main(int argc, char** argv) {
     vsched::Main m(argc, argv);
     const bool T = m.thorough();
+    // --saturate: the build with tiny parser buffers (one object per buffer) runs only the slow-consumer scripts on fault-free input:
+    // there the parser blocks on the full osmdata queue while input is still pending, so the read thread blocks on the full input
+    // queue as well - the state in which close()/~Reader must still get every thread to finish
+    bool saturate = false;
+    for (auto& a : m.rest()) if (a == "--saturate") saturate = true;
     osmium::io::CompressionFactory::instance().register_compression(osmium::io::file_compression::gzip,
         [](int, osmium::io::fsync) { return nullptr; },
         [](int fd) { return new MockDecompressor(fd); },
@@ -314,17 +320,22 @@ int main(int argc, char** argv) {
     std::vector<Job> deep, wide;
     std::vector<Script> all_scripts;
     for (int h = 0; h < 2; ++h) for (int r : {-1, 0, 1, 2}) for (int cl = 0; cl < 2; ++cl) all_scripts.push_back(Script{h != 0, r, cl != 0});
+    // the slow consumer: stops after 0/1/2 buffers, lets the pipeline saturate (both queues full, threads blocked), then closes / destroys
+    for (int h = 0; h < 2; ++h) for (int r : {0, 1, 2}) for (int cl = 0; cl < 2; ++cl) { Script s{h != 0, r, cl != 0}; s.idle = true; all_scripts.push_back(s); }
     std::vector<Script> deep_scripts = {{false, -1, true}, {true, 1, true}, {false, 0, false}, {true, -1, false}};
+    { Script s{true, 1, true}; s.idle = true; deep_scripts.push_back(s); Script d{false, 0, false}; d.idle = true; deep_scripts.push_back(d); }
     auto faults_for = [&](const std::string& fmt) -> std::vector<Fault>& { return fmt == "opl" ? faults_text_opl : fmt == "osm" ? faults_text_xml : faults_pbf; };
     for (std::string fmt : {"opl", "osm", "pbf"}) {
         for (auto& f : faults_for(fmt)) {
             // every script x every fault at bound 0 (pool 1 and 2 alternate); the deep scripts at k <= 1|2
             int alt = 0;
             for (auto& s : all_scripts) {
+                if (saturate && (!s.idle || f.kind != "none" || fmt == "pbf")) continue;
                 vsched::Options o; o.delay_bounded = true; o.max_bound = 0; o.workers = 1;
                 wide.push_back({Cfg{fmt, 1 + (alt++ % 2), (alt % 3) ? "2" : "3", s, f}, o});
             }
             for (auto& s : deep_scripts) {
+                if (saturate && (!s.idle || f.kind != "none" || fmt == "pbf")) continue;
                 if (!T && fmt == "osm" && f.kind == "read" && f.pos > 3) continue;      // XML has many chunks: keep quick small
                 vsched::Options o; o.delay_bounded = true; o.max_bound = T ? 2 : 1; o.workers = 16;
                 deep.push_back({Cfg{fmt, 2, "2", s, f}, o});
